@@ -113,6 +113,23 @@ def oracle(spec, o, m):
                 and h.get("readback_gap") is not None and h["readback_gap"] > 0.01 * m["mean_in"])
     pinned_broken = any(pinned_readback(h) for h in o["final"].values())
 
+    # third attributed cause: the optimiser stays in a local optimum "shifted, steeper, smoothed hinge" on a noise-free
+    # meter at the steep corner of the family (a slope of at least half the base load per degree): ONE unsplit two-sided
+    # smooth sub-model whose stored smoothing fraction is >= 0.05 on a side where the generator has a sharp hinge, with
+    # that side's balance point more than 1 F off, although the generating point has zero error
+    def smoothed_local_optimum():
+        if spec["kind"] != "daily" or spec["noise"] != "none" or spec["shape"] != "both" or len(o["submodels"]) != 1:
+            return False
+        if max(spec["bh"], spec["bc"]) < 0.5 * spec["base"]:
+            return False
+        c = list(o["submodels"].values())[0]["coefficients"]
+        if c["model_type"] != "hdd_tidd_cdd_smooth":
+            return False
+        heat = c["hdd_k"] is not None and c["hdd_k"] >= 0.05 and abs(c["hdd_bp"] - spec["bph"]) > 1.0
+        cool = c["cdd_k"] is not None and c["cdd_k"] >= 0.05 and abs(c["cdd_bp"] - spec["bpc"]) > 1.0
+        return heat or cool
+    local_optimum = smoothed_local_optimum()
+
     def cls(failure):
         s = dict(sig0, failure=failure)
         if spec["kind"] == "billing" and failure.startswith("nrmse") and spec["shape"] != "flat":
@@ -121,6 +138,8 @@ def oracle(spec, o, m):
             s["finding_class"] = "crossed-balance-points-readback"
         elif pinned_broken:
             s["finding_class"] = "pinned-balance-point-readback"
+        elif local_optimum and failure.startswith("nrmse"):
+            s["finding_class"] = "noise-free-smoothed-local-optimum"
         elif (spec["kind"] == "daily" and spec["noise"] == "none" and len(o["submodels"]) > 1 and m["nrmse_in_ok"]
               and failure in ("nrmse_second_year", "spurious_heating_load", "spurious_cooling_load")):
             s["finding_class"] = "noise-free-seasonal-split"
